@@ -1003,10 +1003,7 @@ class BaseOdeModel(object):
             self._eventList.append(event)
             self._hasNewTransition.trip()
         elif isinstance(event, Transition):             # Convert single transition into event
-            rate=event.equation
-            event._equation=None
-            derived_event=Event(rate=rate,
-                                transition_list=[event])
+            derived_event=Event(transition_list=[event])
             self._eventList.append(derived_event)
             self._hasNewTransition.trip()
         else:
